@@ -67,16 +67,26 @@ func (c *memConn) SetDeadline(time.Time) error      { return nil }
 func (c *memConn) SetReadDeadline(time.Time) error  { return nil }
 func (c *memConn) SetWriteDeadline(time.Time) error { return nil }
 
+// op is one call on the netmc.Writer; the reader mirrors threshold / encryption changes after the same packets
+type op struct {
+	kind   string // write | thr | enc | flush
+	p      []byte
+	thr    int
+	secret []byte
+}
+
 type session struct {
 	thr, lvl   int
 	sb         bool
 	secret     []byte // nil = no encryption
 	payloads   [][]byte
 	chunkStyle string
+	ops        []op // the history; built from the fields above for single-configuration sessions
 }
 
 type result struct {
 	wire   []byte
+	encN   int // number of wire bytes written after EnableEncryption (sum of the n's Write returned)
 	chunks []int
 	read   [][]byte
 	term   string // ONeedMore | OFrameTooLarge | OErr | OFuel
@@ -90,71 +100,101 @@ func direction(sb bool) proto.Direction {
 	return proto.ClientBound
 }
 
-// run drives the real writer and reader once.
+// singleConfig: configure first (encryption and threshold in either order), then write, flushing now and then
+func singleConfig(s session, rng *lib.Rng) []op {
+	var ops []op
+	encFirst := rng.Bool()
+	if s.secret != nil && encFirst {
+		ops = append(ops, op{kind: "enc", secret: s.secret})
+	}
+	ops = append(ops, op{kind: "thr", thr: s.thr})
+	if s.secret != nil && !encFirst {
+		ops = append(ops, op{kind: "enc", secret: s.secret})
+	}
+	for _, p := range s.payloads {
+		ops = append(ops, op{kind: "write", p: p})
+		if rng.Chance(1, 3) {
+			ops = append(ops, op{kind: "flush"})
+		}
+	}
+	return append(ops, op{kind: "flush"})
+}
+
+// run drives the real writer and reader once along the history.
 func run(s session, rng *lib.Rng) (res result) {
 	wc := &memConn{}
 	w := netmc.NewWriter(wc, direction(s.sb), time.Second, s.lvl, logr.Discard())
-	encFirst := rng.Bool()
-	if s.secret != nil && encFirst {
-		if err := w.EnableEncryption(s.secret); err != nil {
-			res.werr = err
-			return
-		}
-	}
-	if err := w.SetCompressionThreshold(s.thr); err != nil {
-		res.werr = err
-		return
-	}
-	if s.secret != nil && !encFirst {
-		if err := w.EnableEncryption(s.secret); err != nil {
-			res.werr = err
-			return
-		}
-	}
-	for _, p := range s.payloads {
-		if _, err := w.Write(p); err != nil {
-			res.werr = err
-			return
-		}
-		if rng.Chance(1, 3) {
-			if err := w.Flush(); err != nil {
-				res.werr = err
-				return
+	encrypting := false
+	nWrites := 0
+	for _, o := range s.ops {
+		var err error
+		switch o.kind {
+		case "write":
+			var n int
+			n, err = w.Write(o.p)
+			if encrypting {
+				res.encN += n
 			}
+			nWrites++
+		case "thr":
+			err = w.SetCompressionThreshold(o.thr)
+		case "enc":
+			err = w.EnableEncryption(o.secret)
+			encrypting = true
+		case "flush":
+			err = w.Flush()
 		}
-	}
-	if err := w.Flush(); err != nil {
-		res.werr = err
-		return
+		if err != nil {
+			res.werr = err
+			return
+		}
 	}
 	res.wire = wc.wire
 
 	rc := &memConn{wire: wc.wire, sizes: planChunks(len(wc.wire), s.chunkStyle, rng)}
 	r := netmc.NewReader(rc, direction(s.sb), time.Second, logr.Discard())
 	r.SetState(state.NewRegistry(states.HandshakeState)) // empty registry: every packet id is "unknown", payload is returned as is
-	_ = r.SetCompressionThreshold(s.thr)
-	if s.secret != nil {
-		if err := r.EnableEncryption(s.secret); err != nil {
-			res.werr = err
-			return
-		}
-	}
 	res.term = "OFuel"
-	for i := 0; i < len(s.payloads)+40; i++ {
-		ctx, err := r.ReadPacket()
-		if err != nil {
-			var fe *codec.FrameTooLargeError
-			switch {
-			case rc.hitEOF:
-				res.term = "ONeedMore"
-			case errors.As(err, &fe):
-				res.term = "OFrameTooLarge"
-			default:
-				res.term = "OErr"
-			}
+	classify := func(err error) string {
+		var fe *codec.FrameTooLargeError
+		switch {
+		case rc.hitEOF:
+			return "ONeedMore"
+		case errors.As(err, &fe):
+			return "OFrameTooLarge"
+		}
+		return "OErr"
+	}
+	done := false
+	for _, o := range s.ops {
+		if done {
 			break
 		}
-		// keep the returned slice (no copy): payloads are compared only after the whole session was read back
+		switch o.kind {
+		case "write":
+			ctx, err := r.ReadPacket()
+			if err != nil {
+				res.term = classify(err)
+				done = true
+				break
+			}
+			// keep the returned slice (no copy): payloads are compared only after the whole session was read back
+			res.read = append(res.read, ctx.Payload)
+		case "thr":
+			_ = r.SetCompressionThreshold(o.thr)
+		case "enc":
+			if err := r.EnableEncryption(o.secret); err != nil {
+				res.werr = err
+				return
+			}
+		}
+	}
+	for i := 0; !done && i < nWrites+40; i++ {
+		ctx, err := r.ReadPacket()
+		if err != nil {
+			res.term = classify(err)
+			break
+		}
 		res.read = append(res.read, ctx.Payload)
 	}
 	res.chunks = rc.got
@@ -275,7 +315,7 @@ func main() {
 	out.Rule = "sessions of 1..12 payloads (packet-id VarInt + random/constant/repetitive content; sizes from {1,2,3,t-1,t,t+1,127..129,255..257} and random) " +
 		"through netmc.NewWriter -> in-memory conn -> netmc.NewReader; threshold in {-1,0,1,64,256,2^20}, level -1..9, encryption on/off with random 16-byte secret, " +
 		"conn.Read chunking bytewise / 1..7 / mixed / all-at-once. Coq-judged sessions keep the wire <= 4 KiB (<= 1.5 KiB when encrypted: one AES table row per wire byte). " +
-		"A few sessions are outside Encoder.Write's contract (empty payload, payload without a packet id). distinct = distinct case term; " +
+		"Two sessions in five are histories: 0..3 writes, mostly still unflushed in the bufio.Writer, in front of each SetCompressionThreshold / EnableEncryption call (in shuffled order, optionally a second threshold change), the reader making the same changes after the same packets. A few sessions are outside Encoder.Write's contract (empty payload, payload without a packet id). distinct = distinct case term; " +
 		"non-trivial = the session compresses at least one payload, or is encrypted, or is split into more than one chunk. " +
 		"The payload slices ReadPacket returned are kept without copying and compared only after the whole session was read. Large payloads (up to 2^21-1 bytes) run through the implementation only and are compared in Go as (length, sha256), see coverage.big_sessions."
 
@@ -316,6 +356,13 @@ func main() {
 			kinds = append(kinds, kind)
 			budget -= len(p) + 16
 		}
+		history := i%5 == 3 || i%5 == 4 // two sessions in five change the configuration between buffered writes
+		if history && contract {
+			s.ops, s.secret = historyOps(&s, cr)
+		} else {
+			history = false
+			s.ops = singleConfig(s, cr)
+		}
 		res := run(s, cr)
 		if res.werr != nil {
 			out.GoViolation(map[string]any{"known": nil, "index": i, "what": "writer/reader setup returned an error", "error": res.werr.Error(),
@@ -326,32 +373,38 @@ func main() {
 		var dt []string
 		seen := map[string]bool{}
 		compressed := false
-		for _, p := range s.payloads {
-			if s.thr >= 0 && len(p) >= s.thr && !seen[string(p)] {
-				seen[string(p)] = true
+		curThr := -1
+		for _, o := range s.ops {
+			if o.kind == "thr" {
+				curThr = o.thr
+			}
+			if o.kind == "write" && curThr >= 0 && len(o.p) >= curThr && !seen[string(o.p)] {
+				seen[string(o.p)] = true
 				compressed = true
-				dt = append(dt, lib.Pair(lib.Bytes(p), lib.Bytes(zlibAt(p, s.lvl))))
+				dt = append(dt, lib.Pair(lib.Bytes(o.p), lib.Bytes(zlibAt(o.p, s.lvl))))
 			}
 		}
 		var et []byte
-		if s.secret != nil {
+		if s.secret != nil && res.encN <= len(res.wire) {
 			blk, _ := aes.NewCipher(s.secret)
-			regs := append(append([]byte{}, s.secret...), res.wire...)
+			enc := res.wire[len(res.wire)-res.encN:]
+			regs := append(append([]byte{}, s.secret...), enc...)
 			o := make([]byte, 16)
-			for k := 0; k < len(res.wire); k++ {
+			for k := 0; k < len(enc); k++ {
 				blk.Encrypt(o, regs[k:k+16])
 				et = append(et, o[0])
 			}
 		}
-		sec := "None"
-		if s.secret != nil {
-			sec = lib.Some(lib.Bytes(s.secret))
-		}
-		term := lib.App("Check.C01.mk", lib.Z(int64(s.thr)), lib.Z(int64(s.lvl)), lib.Bool(s.sb), sec,
-			lib.ListOf(s.payloads, lib.Bytes), lib.List(dt), lib.Bytes(et), lib.Bytes(res.wire),
+		term := lib.App("Check.C01.mk", lib.Z(int64(s.lvl)), lib.Bool(s.sb), coqOps(s.ops),
+			lib.List(dt), lib.Bytes(et), lib.Bytes(res.wire),
 			rle(res.chunks),
 			lib.ListOf(res.read, lib.Bytes), oterm(res.term))
 		tags := []string{fmt.Sprintf("thr=%d", s.thr), fmt.Sprintf("lvl=%d", s.lvl), "chunks=" + s.chunkStyle}
+		if history {
+			tags = append(append(tags, "history"), historyTags(s.ops)...)
+		} else {
+			tags = append(tags, "single-config")
+		}
 		if s.secret != nil {
 			tags = append(tags, "encrypted")
 		} else {
@@ -374,7 +427,7 @@ func main() {
 		}
 		out.Add(term, map[string]any{"thr": s.thr, "lvl": s.lvl, "serverbound": s.sb, "secret_hex": fmt.Sprintf("%x", s.secret),
 			"payload_sizes": sizes, "payload_kinds": kinds, "payloads_hex": hexList(s.payloads), "wire_len": len(res.wire), "chunks": res.chunks,
-			"read_sizes": lens(res.read), "term": res.term},
+			"read_sizes": lens(res.read), "term": res.term, "history": describeOps(s.ops)},
 			compressed || s.secret != nil || len(res.chunks) > 1, tags...)
 	}
 
@@ -407,6 +460,7 @@ func main() {
 				expectReject = j
 			}
 		}
+		s.ops = singleConfig(s, cr)
 		res := run(s, cr)
 		bigSizes = append(bigSizes, lens(s.payloads)...)
 		want := s.payloads
@@ -465,4 +519,103 @@ func rle(xs []int) string {
 		i = j
 	}
 	return lib.List(items)
+}
+
+// historyOps: writes before, between and after SetCompressionThreshold / EnableEncryption calls, most of them
+// still unflushed in the bufio.Writer when the change happens; the payloads were generated for s.thr.
+func historyOps(s *session, rng *lib.Rng) ([]op, []byte) {
+	var ops []op
+	secret := s.secret // the wire budget was chosen for this (one AES table row per encrypted byte)
+	ps := s.payloads
+	cuts := []string{"thr"}
+	if secret != nil {
+		cuts = append(cuts, "enc")
+	}
+	if rng.Bool() {
+		cuts = append(cuts, "thr2")
+	}
+	for i := range cuts { // shuffle the order of the changes
+		j := rng.Intn(i + 1)
+		cuts[i], cuts[j] = cuts[j], cuts[i]
+	}
+	flushP := rng.Pick(0, 0, 4, 2) // 0 = never flush before the end
+	emit := func(k int) {
+		for ; k > 0 && len(ps) > 0; k-- {
+			ops = append(ops, op{kind: "write", p: ps[0]})
+			ps = ps[1:]
+			if flushP > 0 && rng.Chance(1, flushP) {
+				ops = append(ops, op{kind: "flush"})
+			}
+		}
+	}
+	for _, c := range cuts {
+		emit(rng.Range(0, 3)) // 0..3 buffered writes in front of the change
+		switch c {
+		case "thr":
+			ops = append(ops, op{kind: "thr", thr: s.thr})
+		case "thr2":
+			ops = append(ops, op{kind: "thr", thr: thresholds[rng.Intn(len(thresholds))]})
+		default:
+			ops = append(ops, op{kind: "enc", secret: secret})
+		}
+	}
+	emit(len(ps))
+	return append(ops, op{kind: "flush"}), secret
+}
+
+func coqOps(ops []op) string {
+	items := make([]string, len(ops))
+	for i, o := range ops {
+		switch o.kind {
+		case "write":
+			items[i] = lib.App("WWrite", lib.Bytes(o.p))
+		case "thr":
+			items[i] = lib.App("WThr", lib.Z(int64(o.thr)))
+		case "enc":
+			items[i] = lib.App("WEnc", lib.Bytes(o.secret))
+		default:
+			items[i] = "WFlush"
+		}
+	}
+	return lib.List(items)
+}
+
+func describeOps(ops []op) []string {
+	var d []string
+	for _, o := range ops {
+		switch o.kind {
+		case "write":
+			d = append(d, fmt.Sprintf("write(%d bytes)", len(o.p)))
+		case "thr":
+			d = append(d, fmt.Sprintf("threshold(%d)", o.thr))
+		case "enc":
+			d = append(d, "encrypt")
+		default:
+			d = append(d, "flush")
+		}
+	}
+	return d
+}
+
+// which changes had unflushed writes in front of them
+func historyTags(ops []op) []string {
+	var tags []string
+	pending := 0
+	for _, o := range ops {
+		switch o.kind {
+		case "write":
+			pending++
+		case "flush":
+			pending = 0
+		case "enc":
+			if pending > 0 {
+				tags = append(tags, "unflushed-before-encryption")
+			}
+		case "thr":
+			if pending > 0 {
+				tags = append(tags, "unflushed-before-threshold")
+			}
+		}
+	}
+	return tags
 }
